@@ -48,8 +48,8 @@ def run_tlc(spec, outdir, workers=8, timeout=1800, extra_env=None, cfg=None, ext
     return out, p.returncode, time.time() - t
 
 
-def tlc_graph(spec, outdir, workers=8, timeout=1800):
-    out, rc, secs = run_tlc(spec, outdir, workers, timeout)
+def tlc_graph(spec, outdir, workers=8, timeout=1800, cfg=None):
+    out, rc, secs = run_tlc(spec, outdir, workers, timeout, cfg=cfg)
     inst, edges, stats = G.parse_tlc(out)
     if rc == 124:
         raise ToolError('TLC timed out on %s' % spec)
@@ -173,8 +173,9 @@ def graph_job(prop, tier, seed, job, policy, known, acc):
     """One bounded TLC instance: check invariants, dump the graph, replay edge-covering walks."""
     spec = job['spec']
     module = job['module']
-    outdir = os.path.join(WORK, prop, spec)
-    inst, edges, stats = tlc_graph(spec, outdir, workers=job.get('workers', 8), timeout=job.get('tlc_timeout', 1800))
+    cfgname = job.get('cfg', spec)
+    outdir = os.path.join(WORK, prop, cfgname)
+    inst, edges, stats = tlc_graph(spec, outdir, cfg=cfgname, workers=job.get('workers', 8), timeout=job.get('tlc_timeout', 1800))
     g = G.Graph(edges)
     byact = summarize_edges(edges)
     # vacuity guard: every action/outcome the job says it depends on must occur
@@ -229,7 +230,7 @@ def graph_job(prop, tier, seed, job, policy, known, acc):
         else:
             acc['foreign'].append({'spec': spec, 'kind': div['kind'], 'act': div.get('act', {}).get('name'), 'reason': reason})
     distinct_nontrivial = len({G.canon([e['act'], e['_pre']]) for i, e in enumerate(edges) if select is None or i in select})
-    acc['jobs'].append({'spec': spec, 'module': module, 'states': stats['distinct'], 'transitions': len(edges),
+    acc['jobs'].append({'spec': spec, 'cfg': cfgname, 'module': module, 'states': stats['distinct'], 'transitions': len(edges),
                         'tlc_generated': stats['generated'], 'depth': stats['depth'], 'tlc_s': stats['tlc_s'],
                         'edges_replayed': len(edges) if select is None else len(select), 'walks': len(walks),
                         'steps_executed': nsteps, 'replay_s': round(rsecs, 1), 'exhaustive_replay': exhaustive,
